@@ -52,6 +52,10 @@ theorem tdl_corrupt_state (proc : Proc α) (c c' : Tdl α) (x y : List (List α)
     (h : c.corrupt proc x = .ok (c', y)) : c' = c.afterTx proc (numSymbols x) := by
   unfold Tdl.corrupt at h
   simp only [bind, Except.bind, pure, Except.pure] at h
+  cases hso : c.signalOk x with
+  | false => simp [hso, throw, throwThe, MonadExceptOf.throw] at h
+  | true =>
+  simp only [hso, Bool.not_true, Bool.false_eq_true, if_false] at h
   cases hm : c.mem with
   | error e => simp [hm] at h
   | ok mem =>
@@ -70,9 +74,10 @@ theorem tdl_corrupt_state (proc : Proc α) (c c' : Tdl α) (x y : List (List α)
         | cons w rest => simp [throw, throwThe, MonadExceptOf.throw] at h
     | some d =>
       simp only [ha] at h
-      by_cases hl : x.length < (c.dims d.1 d.2).2
+      by_cases hl : x.length = (c.dims d.1 d.2).2
+      swap
       · simp [hl, throw, throwThe, MonadExceptOf.throw] at h
-      · simp only [hl, if_false, Except.ok.injEq, Prod.mk.injEq] at h
+      · simp only [hl, ne_eq, not_true_eq_false, if_false, Except.ok.injEq, Prod.mk.injEq] at h
         rw [← h.1]
         simp [Tdl.afterTx, ha]
 
@@ -81,6 +86,10 @@ theorem tdl_corruptFreq_state (proc : Proc α) (fftK : Fft α) (c c' : Tdl α) (
     ∃ ps B nb last, freqPlan sel fft (numSymbols x) = .ok (ps, B, nb) ∧ c' = c.afterFx fft nb last := by
   unfold Tdl.corruptFreq at h
   simp only [bind, Except.bind, pure, Except.pure] at h
+  cases hso : c.signalOk x with
+  | false => simp [hso, throw, throwThe, MonadExceptOf.throw] at h
+  | true =>
+  simp only [hso, Bool.not_true, Bool.false_eq_true, if_false] at h
   cases hp : freqPlan sel fft (numSymbols x) with
   | error e => simp [hp] at h
   | ok r =>
@@ -106,16 +115,17 @@ theorem tdl_corruptFreq_state (proc : Proc α) (fftK : Fft α) (c c' : Tdl α) (
           | cons w rest => simp [throw, throwThe, MonadExceptOf.throw] at h
       | some d =>
         simp only [ha] at h
-        by_cases hl : x.length < (c.dims d.1 d.2).2
+        by_cases hl : x.length = (c.dims d.1 d.2).2
+        swap
         · simp [hl, throw, throwThe, MonadExceptOf.throw] at h
-        · simp only [hl, if_false, Except.ok.injEq, Prod.mk.injEq] at h
+        · simp only [hl, ne_eq, not_true_eq_false, if_false, Except.ok.injEq, Prod.mk.injEq] at h
           rw [← h.1]
           simp [Tdl.afterFx, ha, blockEndPos_eq _ _ hfft]
 
 /-- what one successful step does to the configuration and to the position counter -/
 theorem su_step_state (proc : Proc α) (fftK : Fft α) (c c' : Su α) (op : SuOp α) (o : SuOut α)
     (h : c.step proc fftK op = .ok (c', o)) :
-    c'.tdl.taps = c.tdl.taps ∧ c'.tdl.ant = c.tdl.ant ∧ c'.tdl.jakes = c.tdl.jakes ∧ c'.tdl.link = c.tdl.link ∧
+    c'.tdl.taps = c.tdl.taps ∧ c'.tdl.jakes = c.tdl.jakes ∧ c'.tdl.link = c.tdl.link ∧
     c'.tdl.pos = c.tdl.pos + op.advance c.tdl.jakes := by
   cases op with
   | tx x =>
@@ -154,12 +164,49 @@ theorem su_step_state (proc : Proc α) (fftK : Fft α) (c c' : Su α) (op : SuOp
       simp only [hl, Except.ok.injEq, Prod.mk.injEq] at h
       rw [← h.1]
       simp [SuOp.advance]
+  | setAnt a =>
+    simp only [Su.step, pure, Except.pure, Except.ok.injEq, Prod.mk.injEq] at h
+    rw [← h.1]
+    simp [SuOp.advance]
+  | gen n =>
+    simp only [Su.step, pure, Except.pure, Except.ok.injEq, Prod.mk.injEq] at h
+    rw [← h.1]
+    simp [SuOp.advance]
+  | rejected e => simp [Su.step, throw, throwThe, MonadExceptOf.throw] at h
+
+/-- a rejected call changes nothing: the state after `stepR` is the state before -/
+theorem su_stepR_rejected (proc : Proc α) (fftK : Fft α) (c : Su α) (op : SuOp α) (e : PyErr)
+    (h : c.step proc fftK op = .error e) : c.stepR proc fftK op = (c, .error e) := by
+  simp [Su.stepR, h]
+
+theorem su_stepR_accepted (proc : Proc α) (fftK : Fft α) (c c' : Su α) (op : SuOp α) (o : SuOut α)
+    (h : c.step proc fftK op = .ok (c', o)) : c.stepR proc fftK op = (c', .ok o) := by
+  simp [Su.stepR, h]
+
+/-- a history with rejected calls ends in the same state, and gives the same outputs for the
+    accepted calls, as the history with the rejected calls removed -/
+theorem su_runR_filter (proc : Proc α) (fftK : Fft α) (ops : List (SuOp α)) (c : Su α) :
+    (Su.runR proc fftK c ops).1
+      = (Su.runR proc fftK c (ops.zip (Su.runR proc fftK c ops).2 |>.filterMap
+          (fun p => match p.2 with | .ok _ => some p.1 | .error _ => none))).1 := by
+  induction ops generalizing c with
+  | nil => rfl
+  | cons op ops ih =>
+    simp only [Su.runR, List.zip_cons_cons, List.filterMap_cons]
+    cases hs : c.step proc fftK op with
+    | error e =>
+      simp only [Su.stepR, hs]
+      exact ih c
+    | ok r =>
+      obtain ⟨c', o⟩ := r
+      simp only [Su.stepR, hs, Su.runR]
+      exact ih c'
 
 /-- over a whole history: the profile, antenna set-up and generator never change, and the
     position counter is the start position plus everything the transmissions consumed -/
 theorem su_run_state (proc : Proc α) (fftK : Fft α) (ops : List (SuOp α)) (c0 cf : Su α) (outs : List (SuOut α))
     (h : Su.run proc fftK c0 ops = .ok (cf, outs)) :
-    cf.tdl.taps = c0.tdl.taps ∧ cf.tdl.ant = c0.tdl.ant ∧ cf.tdl.jakes = c0.tdl.jakes ∧ cf.tdl.link = c0.tdl.link ∧
+    cf.tdl.taps = c0.tdl.taps ∧ cf.tdl.jakes = c0.tdl.jakes ∧ cf.tdl.link = c0.tdl.link ∧
     cf.tdl.pos = c0.tdl.pos + (ops.map (SuOp.advance c0.tdl.jakes)).sum := by
   induction ops generalizing c0 outs with
   | nil =>
@@ -179,9 +226,9 @@ theorem su_run_state (proc : Proc α) (fftK : Fft α) (ops : List (SuOp α)) (c0
         obtain ⟨cf', os⟩ := r2
         simp only [hr, Except.ok.injEq, Prod.mk.injEq] at h
         obtain ⟨rfl, -⟩ := h
-        obtain ⟨h1, h2, h3, h4, h5⟩ := su_step_state proc fftK c0 c1 op o1 hs
-        obtain ⟨g1, g2, g3, g4, g5⟩ := ih c1 os hr
-        refine ⟨g1.trans h1, g2.trans h2, g3.trans h3, g4.trans h4, ?_⟩
+        obtain ⟨h1, h3, h4, h5⟩ := su_step_state proc fftK c0 c1 op o1 hs
+        obtain ⟨g1, g3, g4, g5⟩ := ih c1 os hr
+        refine ⟨g1.trans h1, g3.trans h3, g4.trans h4, ?_⟩
         rw [g5, h5, h3, List.map_cons, List.sum_cons]
         ring
 
